@@ -406,9 +406,15 @@ class ComponentLevel3( ComponentLevel2 ):
       for obj in writes:
         writer_prop[ obj ] = True # propagatable
 
+    # The ancestors of a written object are writers that cannot propagate,
+    # unless they are written themselves (one block may write a signal and
+    # then override one of its fields/slices). Doing this in a second pass
+    # makes the result independent of the iteration order of the sets.
+    for blk, writes in s._dsl.all_upblk_writes.items():
+      for obj in writes:
         obj = obj.get_parent_object()
         while obj.is_signal():
-          writer_prop[ obj ] = False
+          writer_prop.setdefault( obj, False )
           obj = obj.get_parent_object()
 
     # Find the host object of every net signal
@@ -471,8 +477,10 @@ class ComponentLevel3( ComponentLevel2 ):
                   break
                 obj = obj.get_parent_object()
 
-              # Check sibling slices
-              for obj in v.get_sibling_slices():
+              # Check sibling slices, unless an ancestor has just made v
+              # the writer (the same block may write the ancestor and a
+              # slice of it)
+              for obj in ( [] if has_writer and writer is v else v.get_sibling_slices() ):
                 if obj.slice_overlap( v ):
                   if obj in writer_prop and writer_prop[ obj ]:
                     assert not has_writer
